@@ -465,7 +465,7 @@ WITNESS_CASES = [
     # D-C01d
     {"freq": 0, "interval": 1, "wkst": None, "dtstart": [2032, 1, 1, 0, 0, 0, 0], "kind": "naive", "byeaster": [-100], "n": 4},
     {"freq": 0, "interval": 1, "wkst": None, "dtstart": [2032, 1, 1, 0, 0, 0, 0], "kind": "naive", "byeaster": [300], "n": 4},
-    # D-C01f
+    # former D-C01f (fixed in /repo 968ce74): BYWEEKNO with a start in year 1
     {"freq": 0, "interval": 1, "wkst": 2, "dtstart": [1, 12, 31, 0, 0, 0, 0], "kind": "naive", "byweekno": [26], "count": 1, "n": 3},
     # D-C01e
     {"freq": 2, "interval": 1, "wkst": None, "dtstart": [2020, 1, 1, 0, 0, 0, 0], "kind": "naive", "byweekday": [[0, 0], [4, 0]], "bysetpos": [1], "n": 5},
@@ -741,14 +741,7 @@ def k_c01e(v):
     return False
 
 
-def k_c01f(v):
-    r, d = _rule(v), _diff(v)
-    wn = r.get("byweekno") or []
-    return (r["dtstart"][0] == 1 and bool(wn) and -1 not in wn and (r["wkst"] or 0) in (1, 2, 3)
-            and d.get("kind") == "exception" and d.get("exc") == "ValueError")
-
-
-KNOWN = {"D-C01f": k_c01f, "D-C01a": k_c01a, "D-C01c": k_c01c, "D-C01d": k_c01d, "D-C01e": k_c01e}
+KNOWN = {"D-C01a": k_c01a, "D-C01c": k_c01c, "D-C01d": k_c01d, "D-C01e": k_c01e}
 
 
 def replay(ctx, payload):
